@@ -186,7 +186,8 @@ PROPS["C17"]["tasks"] += ["IndexMarket._add_markets", "IndexMarket.setup"]
 PROPS["C05"]["tasks"] += ["Agent.update_asset_volume", "Agent.update_cash_amount", "Agent.set_asset_volume", "Agent.set_cash_amount", "Agent.get_asset_volume", "Agent.get_cash_amount"]
 PROPS["C10"]["tasks"] += SKELETON
 PROPS["C05"]["tasks"] += RUNNER_ELEMS
-PROPS["C06"]["tasks"] += SKELETON + ["SequentialRunner._generate_sessions[session]"]
+PROPS["C06"]["tasks"] += SKELETON + ["SequentialRunner._generate_sessions[session]", "Market._extract_sequential_data_by_time[prices,times]", "Market._extract_sequential_data_by_time[prices,all]",
+                          "Market._extract_sequential_data_by_time[counters,times]"]
 PROPS["C10"]["tasks"] += ["Logger.write", "Log.read_and_write", "Logger._process", "Logger.process"]
 PROPS["C10"]["not_decided"] = []
 PROPS["C04"]["tasks"] += ["Order.__init__", "SequentialRunner._collect_orders_from_normal_agents[Order]", "SequentialRunner._collect_orders_from_normal_agents[Cancel]",
